@@ -2,6 +2,7 @@
 # Offline setup: build the driver and warm the Go build cache for every harness.
 set -e
 cd "$(dirname "$0")"
+export VERIF_ROOT="${VERIF_ROOT:-$PWD}"
 export GOFLAGS=-mod=mod GOPROXY=off GOSUMDB=off GOTOOLCHAIN=local
 mkdir -p bin out evidence
 go build -o bin/vdriver ./tools/vdriver
